@@ -29,6 +29,8 @@ inductive VOp where
   /-- `splice(a..b, k fresh owned values)`: the replaced items the calls `cs` yield are dropped one by one, then the
   iterator is dropped -/
   | splice (a b k : Nat) (cs : List End)
+  /-- `mem::forget` of the handle `pop()` / `remove(i)` / `swap_remove(i)` returns, and of an untouched `drain(a..b)` -/
+  | popForget | removeForget (i : Nat) | swapRemoveForget (i : Nat) | drainForget (a b : Nat)
   deriving Repr, DecidableEq
 
 /-- the script step of an abstract operation on vector `v` whose elements have type `ty` -/
@@ -53,6 +55,10 @@ def VOp.toOp (v ty : Nat) : VOp → Op
   | .assign i => .tassign v i
   | .splice a b k cs =>
     .splice v (.incl a) (.excl b) false (List.replicate k (.wrapper ty)) 0 (cs.map fun e => (e, Sink.drop)) .drop
+  | .popForget => .pop v .forget
+  | .removeForget i => .remove v i .forget
+  | .swapRemoveForget i => .swapRemove v i .forget
+  | .drainForget a b => .drain v (.incl a) (.excl b) false [] .forget
 
 /-- `Vec<Id>` plus the counter identities are drawn from, its capacity, and whether the storage has a fixed capacity
 (`Stack`, `StackN`, `Empty`: there `reserve_exact` / `shrink_to*` do not exist) -/
@@ -61,6 +67,8 @@ structure Spec where
   next : Nat
   cap : Nat
   fixed : Bool
+  /-- whether the vector's constraint set has `Cloneable` (only then `clone()` exists) -/
+  cloneable : Bool := true
   deriving Repr, DecidableEq
 
 /-- operations a vector on this kind of storage has -/
@@ -151,13 +159,24 @@ inductive Spec.Step : Spec → VOp → Spec → Prop where
       Step s (.splice a b k cs) { s with items := s.items.take a, next := s.next + k }
   | spliceOut (s : Spec) (a b k : Nat) (cs : List End) (h : ¬ (a ≤ b ∧ b ≤ s.items.length)) :
       Step s (.splice a b k cs) { s with next := s.next + k }
+  /-- forgetting a handle or a range iterator only leaks (C07): the vector keeps exactly the items before the place the
+  operation started at - the length was lowered when the handle was made and nothing restores it; nothing is destroyed -/
+  | popForget (s : Spec) : Step s .popForget { s with items := s.items.take (s.items.length - 1) }
+  | removeForget (s : Spec) (i : Nat) (h : i < s.items.length) : Step s (.removeForget i) { s with items := s.items.take i }
+  | removeForgetOut (s : Spec) (i : Nat) (h : s.items.length ≤ i) : Step s (.removeForget i) s
+  | swapRemoveForget (s : Spec) (i : Nat) (h : i < s.items.length) :
+      Step s (.swapRemoveForget i) { s with items := s.items.take i }
+  | swapRemoveForgetOut (s : Spec) (i : Nat) (h : s.items.length ≤ i) : Step s (.swapRemoveForget i) s
+  | drainForget (s : Spec) (a b : Nat) (h : a ≤ b ∧ b ≤ s.items.length) :
+      Step s (.drainForget a b) { s with items := s.items.take a }
+  | drainForgetOut (s : Spec) (a b : Nat) (h : ¬ (a ≤ b ∧ b ≤ s.items.length)) : Step s (.drainForget a b) s
 
 /-- the concrete world shows the abstract vector at `v`, and every other vector is what the background `bg` says -/
 structure Rel (bg : Nat → Option VecSt) (v ty : Nat) (w : World) (s : Spec) : Prop where
   inv : w.Inv
   nofault : w.fault = none
   vec : ∃ d, w.vecs[v]? = some d ∧ d.live = true ∧ d.ty = ty ∧ d.abs = s.items.map Cell.val ∧
-    d.cap = s.cap ∧ VecSt.resizable d.bk = !s.fixed
+    d.cap = s.cap ∧ (VecSt.resizable d.bk = !s.fixed ∧ d.cloneable = s.cloneable)
   next : w.created = s.next
   others : ∀ u, u ≠ v → w.vecs[u]? = bg u
 
@@ -175,7 +194,8 @@ theorem vis_eq (w : World) (v : Nat) (d : VecSt) (hv : w.vecs[v]? = some d) : w.
 theorem Rel.mk' {v ty : Nat} {w' : World} {s' : Spec} (hinv : w'.Inv) (hothers : ∀ u, u ≠ v → w'.vecs[u]? = bg u)
     (hf : w'.fault = none) (d' : VecSt)
     (hv : w'.vecs[v]? = some d') (hl : d'.live = true) (hty : d'.ty = ty) (habs : d'.abs = s'.items.map Cell.val)
-    (hn : w'.created = s'.next) (hcap : d'.cap = s'.cap) (hbk : VecSt.resizable d'.bk = !s'.fixed) : Rel bg v ty w' s' :=
+    (hn : w'.created = s'.next) (hcap : d'.cap = s'.cap)
+    (hbk : VecSt.resizable d'.bk = !s'.fixed ∧ d'.cloneable = s'.cloneable) : Rel bg v ty w' s' :=
   ⟨hinv, hf, ⟨d', hv, hl, hty, habs, hcap, hbk⟩, hn, hothers⟩
 
 theorem set_get (w : World) (v : Nat) (d x : VecSt) (hv : w.vecs[v]? = some d) : (w.vecs.set v x)[v]? = some x := by
@@ -248,7 +268,7 @@ theorem step_push (cfg : Cfg) (v ty : Nat) (w : World) (s : Spec) (h : Rel bg v 
   cases hr : d.reserveOne with
   | ok p =>
     obtain ⟨d1, es⟩ := p
-    obtain ⟨hroom, hlen1, ha, hw1, hty1, _, _, _, _, hbk1, hl1⟩ := reserveOne_spec d d1 es hg.wf hr
+    obtain ⟨hroom, hlen1, ha, hw1, hty1, _, _, _, hcl1, hbk1, hl1⟩ := reserveOne_spec d d1 es hg.wf hr
     have hvb : w.bump.vecs[v]? = some d := hv
     have hex := pushUnchecked_plain w.bump v w.created (.wrapper w.created ty) (Val.Plain.wrapper _ _) d d1 es hvb hl hg.wf hr
     have hstep : step cfg (VOp.push.toOp v ty) w =
@@ -256,11 +276,11 @@ theorem step_push (cfg : Cfg) (v ty : Nat) (w : World) (s : Spec) (h : Rel bg v 
       have hb : ({ w with created := w.created + 1 } : World) = w.bump := rfl
       simp only [VOp.toOp, step, mkVal, WM.bind_apply, fresh, WM.pure_apply, push, hb, getVec_ok w.bump v d hvb hl, valTy, hty,
         ne_eq, not_true_eq_false, if_false, hex]
-    refine ⟨_, Spec.Step.push s d1.cap (room_ok hg.wf habs hcp hbk hr), ?_, hnub⟩
+    refine ⟨_, Spec.Step.push s d1.cap (room_ok hg.wf habs hcp hbk.1 hr), ?_, hnub⟩
     rw [hstep] at hinv' ⊢
     refine Rel.mk' (bg := bg) hinv' (by frame_tac hbg) (by simpa [World.bump] using hf) (d1.pushCell (.val w.created)) (set_get w.bump v d _ hvb)
       (by simp [VecSt.pushCell, hl1, hl]) (by simp [VecSt.pushCell, hty1, hty]) ?_ (by simp [World.bump, hn])
-      (by simp [VecSt.pushCell]) (by simp [VecSt.pushCell, hbk1, hbk])
+      (by simp [VecSt.pushCell]) (by simp [VecSt.pushCell, hbk1, hcl1, hbk])
     rw [VecSt.pushCell_abs d1 _ hw1, ha, habs, hn]; simp
   | panic m =>
     refine ⟨_, Spec.Step.pushRefused s (room_refused hg.wf habs hcp hr), ?_, hnub⟩
@@ -291,16 +311,16 @@ theorem step_tpush (cfg : Cfg) (v ty : Nat) (w : World) (s : Spec) (h : Rel bg v
   cases hr : d.reserveOne with
   | ok p =>
     obtain ⟨d1, es⟩ := p
-    obtain ⟨hroom, hlen1, ha, hw1, hty1, _, _, _, _, hbk1, hl1⟩ := reserveOne_spec d d1 es hg.wf hr
+    obtain ⟨hroom, hlen1, ha, hw1, hty1, _, _, _, hcl1, hbk1, hl1⟩ := reserveOne_spec d d1 es hg.wf hr
     have hex := pushUnchecked_plain w.bump v w.created (.wrapper w.created d.ty) (Val.Plain.wrapper _ _) d d1 es hvb hl hg.wf hr
     have hstep : step cfg (VOp.tpush.toOp v ty) w =
         ({ w.bump with vecs := w.bump.vecs.set v (d1.pushCell (.val w.created)), ev := es.reverse ++ w.bump.ev }, .ok []) := by
       simp only [VOp.toOp, step, WM.bind_apply, getVec_ok w v d hv hl, fresh, WM.pure_apply, hb, hex]
-    refine ⟨_, Spec.Step.tpush s d1.cap (room_ok hg.wf habs hcp hbk hr), ?_, hnub⟩
+    refine ⟨_, Spec.Step.tpush s d1.cap (room_ok hg.wf habs hcp hbk.1 hr), ?_, hnub⟩
     rw [hstep] at hinv' ⊢
     refine Rel.mk' (bg := bg) hinv' (by frame_tac hbg) (by simpa [World.bump] using hf) (d1.pushCell (.val w.created)) (set_get w.bump v d _ hvb)
       (by simp [VecSt.pushCell, hl1, hl]) (by simp [VecSt.pushCell, hty1, hty]) ?_ (by simp [World.bump, hn])
-      (by simp [VecSt.pushCell]) (by simp [VecSt.pushCell, hbk1, hbk])
+      (by simp [VecSt.pushCell]) (by simp [VecSt.pushCell, hbk1, hcl1, hbk])
     rw [VecSt.pushCell_abs d1 _ hw1, ha, habs, hn]; simp
   | panic m =>
     refine ⟨_, Spec.Step.tpushRefused s (room_refused hg.wf habs hcp hr), ?_, hnub⟩
@@ -318,7 +338,8 @@ theorem step_tpush (cfg : Cfg) (v ty : Nat) (w : World) (s : Spec) (h : Rel bg v
 /-- the shared part of `insert` / typed `insert`: what `insert_unchecked` of a fresh wrapper does -/
 theorem insert_core (v ty i : Nat) (w : World) (s : Spec) (d : VecSt) (hinv : w.Inv) (hf : w.fault = none)
     (hv : w.vecs[v]? = some d) (hl : d.live = true) (hty : d.ty = ty) (habs : d.abs = s.items.map Cell.val)
-    (hcp : d.cap = s.cap) (hbk : VecSt.resizable d.bk = !s.fixed) (hbg : ∀ u, u ≠ v → w.vecs[u]? = bg u)
+    (hcp : d.cap = s.cap) (hbk : VecSt.resizable d.bk = !s.fixed ∧ d.cloneable = s.cloneable)
+    (hbg : ∀ u, u ≠ v → w.vecs[u]? = bg u)
     (hn : w.created = s.next) (hinv' : (insertUnchecked v i (.wrapper w.created ty) w.bump).1.Inv) :
     ∃ s', ((∃ c, s' = { s with items := s.items.insertIdx i s.next, next := s.next + 1, cap := c } ∧
               i ≤ s.items.length ∧ s.Room (some c)) ∨
@@ -331,13 +352,13 @@ theorem insert_core (v ty i : Nat) (w : World) (s : Spec) (d : VecSt) (hinv : w.
   · cases hr : d.reserveOne with
     | ok p =>
       obtain ⟨d1, es⟩ := p
-      obtain ⟨hroom, hlen1, ha, hw1, hty1, _, _, _, _, hbk1, hl1⟩ := reserveOne_spec d d1 es hg.wf hr
+      obtain ⟨hroom, hlen1, ha, hw1, hty1, _, _, _, hcl1, hbk1, hl1⟩ := reserveOne_spec d d1 es hg.wf hr
       have hex := insertUnchecked_plain w.bump v i w.created (.wrapper w.created ty) (Val.Plain.wrapper _ _) d d1 es hvb hl hg.wf hi hr
-      refine ⟨_, Or.inl ⟨d1.cap, rfl, by omega, room_ok hg.wf habs hcp hbk hr⟩, ?_⟩
+      refine ⟨_, Or.inl ⟨d1.cap, rfl, by omega, room_ok hg.wf habs hcp hbk.1 hr⟩, ?_⟩
       rw [hex] at hinv' ⊢
       refine Rel.mk' (bg := bg) hinv' (by frame_tac hbg) (by simpa [World.bump] using hf) (d1.insertAt i (.val w.created)) (set_get w.bump v d _ hvb)
         (by simp [VecSt.insertAt, hl1, hl]) (by simp [VecSt.insertAt, hty1, hty]) ?_ (by simp [World.bump, hn])
-        (by simp [VecSt.insertAt]) (by simp [VecSt.insertAt, hbk1, hbk])
+        (by simp [VecSt.insertAt]) (by simp [VecSt.insertAt, hbk1, hcl1, hbk])
       rw [VecSt.insertAt_abs d1 i _ hw1 (by omega), ha, habs, hn, map_insertIdx']
     | panic m =>
       refine ⟨_, Or.inr ⟨rfl, Or.inr (room_refused hg.wf habs hcp hr)⟩, ?_⟩
@@ -727,19 +748,20 @@ theorem step_capOp (cfg : Cfg) (v ty : Nat) (w : World) (s : Spec) (h : Rel bg v
     (hvalid : ∀ d, w.vecs[v]? = some d → d.live = true → VecSt.resizable d.bk = !s.fixed → Hist.Valid w.vecs (op.toOp v ty))
     (hok : ∀ d d' es, d.WF → s.items.length = d.len → d.cap = s.cap → VecSt.resizable d.bk = !s.fixed →
       f d = .ok (d', es) →
-      d'.abs = d.abs ∧ d'.ty = d.ty ∧ d'.bk = d.bk ∧ d'.live = d.live ∧ Spec.Step s op { s with cap := d'.cap })
+      d'.abs = d.abs ∧ d'.ty = d.ty ∧ d'.bk = d.bk ∧ d'.cloneable = d.cloneable ∧ d'.live = d.live ∧
+        Spec.Step s op { s with cap := d'.cap })
     (hpanic : ∀ d m, d.WF → s.items.length = d.len → d.cap = s.cap → VecSt.resizable d.bk = !s.fixed →
       f d = .panic m → Spec.Step s op s) :
     ∃ s', Spec.Step s op s' ∧ Rel bg v ty (step cfg (op.toOp v ty) w).1 s' ∧ (step cfg (op.toOp v ty) w).2.notUb := by
   obtain ⟨hinv, hf, ⟨d, hv, hl, hty, habs, hcp, hbk⟩, hn, hbg⟩ := h
-  obtain ⟨hinv', hnub⟩ := Hist.step_inv cfg _ w hinv hcore (hvalid d hv hl hbk)
+  obtain ⟨hinv', hnub⟩ := Hist.step_inv cfg _ w hinv hcore (hvalid d hv hl hbk.1)
   have hg := hinv.good v d hv
   have hlen := abs_len hg.wf habs
   have hlt : v < w.vecs.length := (List.getElem?_eq_some_iff.mp hv).1
   cases hfd : f d with
   | ok p =>
     obtain ⟨d', es⟩ := p
-    obtain ⟨ha, hty', hbk', hl', hstep⟩ := hok d d' es hg.wf hlen hcp hbk hfd
+    obtain ⟨ha, hty', hbk', hcl', hl', hstep⟩ := hok d d' es hg.wf hlen hcp hbk.1 hfd
     have hex : step cfg (op.toOp v ty) w = ({ (w.upd v d') with ev := es.reverse ++ w.ev }, .ok []) := by
       rw [hop]
       simp only [WM.bind_apply, vecOp, getVec_ok w v d hv hl, hfd, WM.lift, setVec_apply, emit, WM.modify_apply,
@@ -748,12 +770,12 @@ theorem step_capOp (cfg : Cfg) (v ty : Nat) (w : World) (s : Spec) (h : Rel bg v
     refine ⟨_, hstep, ?_, hnub⟩
     rw [hex] at hinv' ⊢
     exact Rel.mk' (bg := bg) hinv' (by frame_tac hbg) hf d' (by simp [World.upd, hlt]) (by rw [hl', hl]) (by rw [hty', hty]) (by rw [ha, habs]) hn rfl
-      (by rw [hbk', hbk])
+      (by rw [hbk', hcl']; exact hbk)
   | panic m =>
     have hex : step cfg (op.toOp v ty) w = ({ w with fault := none }, .panic m) := by
       rw [hop]
       simp only [WM.bind_apply, vecOp_panic w v d f m hv hl hfd]
-    refine ⟨s, hpanic d m hg.wf hlen hcp hbk hfd, ?_, hnub⟩
+    refine ⟨s, hpanic d m hg.wf hlen hcp hbk.1 hfd, ?_, hnub⟩
     rw [hex] at hinv' ⊢
     exact Rel.mk' (bg := bg) hinv' (by frame_tac hbg) rfl d hv hl hty habs hn hcp hbk
   | ub m =>
@@ -781,15 +803,15 @@ theorem step_reserve (cfg : Cfg) (v ty n : Nat) (w : World) (s : Spec) (h : Rel 
       simp only at hfd
       split at hfd
       · rename_i hlt
-        obtain ⟨hc, _, ha, _, hty', _, _, _, _, hbk', hlv'⟩ := memExpand_spec d d' _ es hwf hfd
+        obtain ⟨hc, _, ha, _, hty', _, _, _, hcl', hbk', hlv'⟩ := memExpand_spec d d' _ es hwf hfd
         have hrz := memExpand_resizable d d' _ es hfd
-        refine ⟨ha, hty', hbk', hlv', Spec.Step.reserveGrow s n d'.cap (by omega) ?_ (by omega)⟩
+        refine ⟨ha, hty', hbk', hcl', hlv', Spec.Step.reserveGrow s n d'.cap (by omega) ?_ (by omega)⟩
         rw [hrz] at hbk; cases hfx : s.fixed <;> simp [hfx] at hbk ⊢
       · rename_i hnlt
         cases hfd
         have : ({ s with cap := d.cap } : Spec) = s := by rw [hcp]
         rw [this]
-        exact ⟨rfl, rfl, rfl, rfl, Spec.Step.reserveFits s n (by omega)⟩
+        exact ⟨rfl, rfl, rfl, rfl, rfl, Spec.Step.reserveFits s n (by omega)⟩
     | panic m => rw [hca] at hfd; cases hfd
     | ub m => rw [hca] at hfd; cases hfd
   · intro d m hwf hlen hcp hbk hfd
@@ -823,8 +845,8 @@ theorem step_reserveExact (cfg : Cfg) (v ty n : Nat) (w : World) (s : Spec) (h :
       split at hfd
       · rename_i hlt
         unfold VecSt.memExpandExact at hfd
-        obtain ⟨hc, _, ha, _, hty', _, _, _, _, hbk', hlv'⟩ := memResize_spec d d' _ es hwf (by omega) hfd
-        refine ⟨ha, hty', hbk', hlv', ?_⟩
+        obtain ⟨hc, _, ha, _, hty', _, _, _, hcl', hbk', hlv'⟩ := memResize_spec d d' _ es hwf (by omega) hfd
+        refine ⟨ha, hty', hbk', hcl', hlv', ?_⟩
         have : d'.cap = s.items.length + n := by omega
         rw [this]
         exact Spec.Step.reserveExactGrow s n (by omega)
@@ -832,7 +854,7 @@ theorem step_reserveExact (cfg : Cfg) (v ty n : Nat) (w : World) (s : Spec) (h :
         cases hfd
         have : ({ s with cap := d.cap } : Spec) = s := by rw [hcp]
         rw [this]
-        exact ⟨rfl, rfl, rfl, rfl, Spec.Step.reserveExactFits s n (by omega)⟩
+        exact ⟨rfl, rfl, rfl, rfl, rfl, Spec.Step.reserveExactFits s n (by omega)⟩
     | panic m => rw [hca] at hfd; cases hfd
     | ub m => rw [hca] at hfd; cases hfd
   · intro d m hwf hlen hcp hbk hfd
@@ -848,8 +870,8 @@ theorem step_shrinkToFit (cfg : Cfg) (v ty : Nat) (w : World) (s : Spec) (h : Re
     (fun d hv hl hbk => ⟨d, hv, hl, resizable_of_not_fixed hbk hfx⟩) ?_ ?_
   · intro d d' es hwf hlen hcp hbk hfd
     unfold VecSt.shrinkToFit at hfd
-    obtain ⟨hc, _, ha, _, hty', _, _, _, _, hbk', hlv'⟩ := memResize_spec d d' _ es hwf (Nat.le_refl _) hfd
-    refine ⟨ha, hty', hbk', hlv', ?_⟩
+    obtain ⟨hc, _, ha, _, hty', _, _, _, hcl', hbk', hlv'⟩ := memResize_spec d d' _ es hwf (Nat.le_refl _) hfd
+    refine ⟨ha, hty', hbk', hcl', hlv', ?_⟩
     rw [hc, ← hlen]
     exact Spec.Step.shrinkToFit s
   · intro d m _ _ _ _ _
@@ -863,8 +885,8 @@ theorem step_shrinkTo (cfg : Cfg) (v ty n : Nat) (w : World) (s : Spec) (h : Rel
   · intro d d' es hwf hlen hcp hbk hfd
     have hlc := hwf.len_le_cap
     unfold VecSt.shrinkTo at hfd
-    obtain ⟨hc, _, ha, _, hty', _, _, _, _, hbk', hlv'⟩ := memResize_spec d d' _ es hwf (by omega) hfd
-    refine ⟨ha, hty', hbk', hlv', ?_⟩
+    obtain ⟨hc, _, ha, _, hty', _, _, _, hcl', hbk', hlv'⟩ := memResize_spec d d' _ es hwf (by omega) hfd
+    refine ⟨ha, hty', hbk', hcl', hlv', ?_⟩
     rw [hc, hcp, ← hlen]
     exact Spec.Step.shrinkTo s n
   · intro d m _ _ _ _ _
@@ -963,7 +985,7 @@ theorem step_assign (cfg : Cfg) (v ty i : Nat) (w : World) (s : Spec) (h : Rel b
 
 /-- what a `reserve` that returns did -/
 theorem reserve_ok_cases (d d' : VecSt) (n : Nat) (es : List Event) (hwf : d.WF) (h : d.reserve n = .ok (d', es)) :
-    d.len + n ≤ USIZE_MAX ∧ d'.bk = d.bk ∧
+    d.len + n ≤ USIZE_MAX ∧ (d'.bk = d.bk ∧ d'.cloneable = d.cloneable) ∧
       ((d.len + n ≤ d.cap ∧ d'.cap = d.cap) ∨
        (d.cap < d.len + n ∧ d.len + n ≤ d'.cap ∧ VecSt.resizable d.bk = true)) := by
   have hlc := hwf.len_le_cap
@@ -975,10 +997,10 @@ theorem reserve_ok_cases (d d' : VecSt) (n : Nat) (es : List Event) (hwf : d.WF)
     simp only at h
     split at h
     · rename_i hlt
-      obtain ⟨hc, _, _, _, _, _, _, _, _, hbk', _⟩ := memExpand_spec d d' _ es hwf h
-      exact ⟨hsm, hbk', Or.inr ⟨by omega, by omega, memExpand_resizable d d' _ es h⟩⟩
+      obtain ⟨hc, _, _, _, _, _, _, _, hcl', hbk', _⟩ := memExpand_spec d d' _ es hwf h
+      exact ⟨hsm, ⟨hbk', hcl'⟩, Or.inr ⟨by omega, by omega, memExpand_resizable d d' _ es h⟩⟩
     · cases h
-      exact ⟨hsm, rfl, Or.inl ⟨by omega, rfl⟩⟩
+      exact ⟨hsm, ⟨rfl, rfl⟩, Or.inl ⟨by omega, rfl⟩⟩
   | panic m => rw [hca] at h; cases h
   | ub m => rw [hca] at h; cases h
 
@@ -1111,7 +1133,7 @@ theorem step_splice (cfg : Cfg) (v ty a b k : Nat) (cs : List End) (w : World) (
       have hpl : PlainList (wrappers ty ids) ids d0.ty := by
         have : d0.ty = ty := hty
         rw [this]; exact wrappers_plain ty ids
-      obtain ⟨d3, he, hlen3, hcells3, hlive3, hcap3, hty3, hbk3, _, _, _⟩ :=
+      obtain ⟨d3, he, hlen3, hcells3, hlive3, hcap3, hty3, hbk3, hcl3, _, _, _⟩ :=
         spliceDrop_exec cfg W1 it2 d0 d1 es (wrappers ty ids) ids hpl hv1 hl hf1 rfl hai hij hjb
           hbl h1 h2 hsmall' hres' hinit
       obtain ⟨_, hvis, _, _, _, _⟩ :=
@@ -1145,7 +1167,7 @@ theorem step_splice (cfg : Cfg) (v ty a b k : Nat) (cs : List End) (w : World) (
         refine Rel.mk' (bg := bg) hinv' (by intro u hu; show (W1.vecs.set v _)[u]? = _; rw [List.getElem?_set_ne (Ne.symm hu)]; exact hW1 u hu)
           (by simpa using hf1) { d3 with len := a + k + (d.len - b) } (by simp [hlt0]) hlive3
           (by show d3.ty = ty; rw [hty3]; exact hty) habs3 (by simp [W1, W0, World.bumpN, hn])
-          (by show d3.cap = s.cap; rw [hcap3, hc1]; exact hcp) (by show VecSt.resizable d3.bk = _; rw [hbk3, hbk1]; exact hbk)
+          (by show d3.cap = s.cap; rw [hcap3, hc1]; exact hcp) (by show VecSt.resizable d3.bk = _ ∧ d3.cloneable = _; rw [hbk3, hcl3, hbk1.1, hbk1.2]; exact hbk)
       · refine ⟨_, Spec.Step.spliceGrow s a b k d1.cap cs ⟨hab, by omega⟩ (by omega) ?_ (by omega), ?_, hnub⟩
         · have : VecSt.resizable d.bk = true := hrz
           rw [this] at hbk; cases hfx : s.fixed <;> simp [hfx] at hbk ⊢
@@ -1153,7 +1175,7 @@ theorem step_splice (cfg : Cfg) (v ty a b k : Nat) (cs : List End) (w : World) (
           refine Rel.mk' (bg := bg) hinv' (by intro u hu; show (W1.vecs.set v _)[u]? = _; rw [List.getElem?_set_ne (Ne.symm hu)]; exact hW1 u hu)
             (by simpa using hf1) { d3 with len := a + k + (d.len - b) } (by simp [hlt0]) hlive3
             (by show d3.ty = ty; rw [hty3]; exact hty) habs3 (by simp [W1, W0, World.bumpN, hn])
-            (by show d3.cap = d1.cap; exact hcap3) (by show VecSt.resizable d3.bk = _; rw [hbk3, hbk1]; exact hbk)
+            (by show d3.cap = d1.cap; exact hcap3) (by show VecSt.resizable d3.bk = _ ∧ d3.cloneable = _; rw [hbk3, hcl3, hbk1.1, hbk1.2]; exact hbk)
     | panic m =>
       have hres' : d0.reserve (it2.start + ids.length + (it2.origLen - it2.end0) - it2.start) = .panic m := by
         simpa [it2, hidl] using hres
@@ -1193,6 +1215,125 @@ theorem step_splice (cfg : Cfg) (v ty a b k : Nat) (cs : List End) (w : World) (
     rw [hex] at hinv' ⊢
     exact Rel.mk' (bg := bg) hinv' (by frame_tac hbg) (by simp) d (by simpa using hvm) hl hty habs (by simp [World.bumpN, hn]) hcp hbk
 
+/-- the vector with its length lowered to `n ≤ len`: it shows the first `n` items -/
+theorem abs_setLen {d : VecSt} {items : List Nat} (habs : d.abs = items.map Cell.val) (n : Nat) (hn : n ≤ d.len) :
+    ({ d with len := n } : VecSt).abs = (items.take n).map Cell.val := by
+  show d.cells.take n = _
+  have hd : d.cells.take d.len = items.map Cell.val := habs
+  rw [List.map_take, ← hd, List.take_take]
+  congr 1; omega
+
+/-- the shared part of the forgotten removal handles: `len := n`, nothing else -/
+theorem step_forget_at (cfg : Cfg) (v ty : Nat) (w : World) (s : Spec) (h : Rel bg v ty w s) (vop : VOp) (n : Nat)
+    (hcore : Hist.Core (vop.toOp v ty))
+    (hvalid : ∀ d, w.vecs[v]? = some d → d.live = true → Hist.Valid w.vecs (vop.toOp v ty))
+    (hex : ∀ d, w.vecs[v]? = some d → d.live = true → s.items.length = d.len →
+      n ≤ d.len ∧ ∃ out, step cfg (vop.toOp v ty) w = (w.upd v { d with len := n }, .ok out))
+    (hstep : Spec.Step s vop { s with items := s.items.take n }) :
+    ∃ s', Spec.Step s vop s' ∧ Rel bg v ty (step cfg (vop.toOp v ty) w).1 s' ∧ (step cfg (vop.toOp v ty) w).2.notUb := by
+  obtain ⟨hinv, hf, ⟨d, hv, hl, hty, habs, hcp, hbk⟩, hn, hbg⟩ := h
+  obtain ⟨hinv', hnub⟩ := Hist.step_inv cfg _ w hinv hcore (hvalid d hv hl)
+  have hg := hinv.good v d hv
+  have hlen := abs_len hg.wf habs
+  have hlt : v < w.vecs.length := (List.getElem?_eq_some_iff.mp hv).1
+  obtain ⟨hnle, out, hx⟩ := hex d hv hl hlen
+  refine ⟨_, hstep, ?_, hnub⟩
+  rw [hx] at hinv' ⊢
+  exact Rel.mk' (bg := bg) hinv' (by frame_tac hbg) (by simpa using hf) { d with len := n } (by simp [World.upd, hlt]) hl hty
+    (abs_setLen habs n hnle) (by simpa using hn) hcp hbk
+
+theorem step_removeForget (cfg : Cfg) (v ty i : Nat) (w : World) (s : Spec) (h : Rel bg v ty w s) :
+    ∃ s', Spec.Step s (.removeForget i) s' ∧ Rel bg v ty (step cfg ((VOp.removeForget i).toOp v ty) w).1 s' ∧
+      (step cfg ((VOp.removeForget i).toOp v ty) w).2.notUb := by
+  by_cases hi : i < s.items.length
+  · refine step_forget_at cfg v ty w s h (.removeForget i) i trivial (fun d hv hl => ⟨⟨d, hv, hl⟩, trivial⟩) ?_
+      (Spec.Step.removeForget s i hi)
+    intro d hv hl hlen
+    refine ⟨by omega, [], ?_⟩
+    have hi' : i < d.len := by omega
+    simp only [VOp.toOp, step, WM.bind_apply, getVec_ok w v d hv hl, hi', if_true, setLen, setVec_apply, sinkHandle,
+      WM.pure_apply]
+  · obtain ⟨hinv, hf, ⟨d, hv, hl, hty, habs, hcp, hbk⟩, hn, hbg⟩ := h
+    obtain ⟨hinv', hnub⟩ := Hist.step_inv cfg ((VOp.removeForget i).toOp v ty) w hinv trivial ⟨⟨d, hv, hl⟩, trivial⟩
+    have hg := hinv.good v d hv
+    have hlen := abs_len hg.wf habs
+    have hi' : ¬ i < d.len := by omega
+    have hex : step cfg ((VOp.removeForget i).toOp v ty) w = ({ w with fault := none }, .panic "Index out of range!") := by
+      simp only [VOp.toOp, step, WM.bind_apply, getVec_ok w v d hv hl, hi', if_false, WM.panic_apply]
+    refine ⟨s, Spec.Step.removeForgetOut s i (by omega), ?_, hnub⟩
+    rw [hex] at hinv' ⊢
+    exact Rel.mk' (bg := bg) hinv' (by frame_tac hbg) rfl d hv hl hty habs hn hcp hbk
+
+theorem step_swapRemoveForget (cfg : Cfg) (v ty i : Nat) (w : World) (s : Spec) (h : Rel bg v ty w s) :
+    ∃ s', Spec.Step s (.swapRemoveForget i) s' ∧ Rel bg v ty (step cfg ((VOp.swapRemoveForget i).toOp v ty) w).1 s' ∧
+      (step cfg ((VOp.swapRemoveForget i).toOp v ty) w).2.notUb := by
+  by_cases hi : i < s.items.length
+  · refine step_forget_at cfg v ty w s h (.swapRemoveForget i) i trivial (fun d hv hl => ⟨⟨d, hv, hl⟩, trivial⟩) ?_
+      (Spec.Step.swapRemoveForget s i hi)
+    intro d hv hl hlen
+    refine ⟨by omega, [], ?_⟩
+    have hi' : i < d.len := by omega
+    simp only [VOp.toOp, step, WM.bind_apply, getVec_ok w v d hv hl, hi', if_true, setLen, setVec_apply, sinkHandle,
+      WM.pure_apply]
+  · obtain ⟨hinv, hf, ⟨d, hv, hl, hty, habs, hcp, hbk⟩, hn, hbg⟩ := h
+    obtain ⟨hinv', hnub⟩ := Hist.step_inv cfg ((VOp.swapRemoveForget i).toOp v ty) w hinv trivial ⟨⟨d, hv, hl⟩, trivial⟩
+    have hg := hinv.good v d hv
+    have hlen := abs_len hg.wf habs
+    have hi' : ¬ i < d.len := by omega
+    have hex : step cfg ((VOp.swapRemoveForget i).toOp v ty) w = ({ w with fault := none }, .panic "Index out of range!") := by
+      simp only [VOp.toOp, step, WM.bind_apply, getVec_ok w v d hv hl, hi', if_false, WM.panic_apply]
+    refine ⟨s, Spec.Step.swapRemoveForgetOut s i (by omega), ?_, hnub⟩
+    rw [hex] at hinv' ⊢
+    exact Rel.mk' (bg := bg) hinv' (by frame_tac hbg) rfl d hv hl hty habs hn hcp hbk
+
+theorem step_popForget (cfg : Cfg) (v ty : Nat) (w : World) (s : Spec) (h : Rel bg v ty w s) :
+    ∃ s', Spec.Step s .popForget s' ∧ Rel bg v ty (step cfg (VOp.popForget.toOp v ty) w).1 s' ∧
+      (step cfg (VOp.popForget.toOp v ty) w).2.notUb := by
+  refine step_forget_at cfg v ty w s h .popForget (s.items.length - 1) trivial (fun d hv hl => ⟨⟨d, hv, hl⟩, trivial⟩) ?_
+    (Spec.Step.popForget s)
+  intro d hv hl hlen
+  refine ⟨by omega, ?_⟩
+  by_cases h0 : d.len = 0
+  · refine ⟨["N"], ?_⟩
+    have : w.upd v { d with len := s.items.length - 1 } = w := by
+      rw [hlen, h0]
+      have : ({ d with len := 0 - 1 } : VecSt) = d := by cases d; simp at h0 ⊢; omega
+      rw [this]; exact World.upd_self w v d hv
+    rw [this]
+    simp only [VOp.toOp, step, WM.bind_apply, getVec_ok w v d hv hl, h0, if_true, WM.pure_apply]
+  · refine ⟨[], ?_⟩
+    rw [hlen]
+    simp only [VOp.toOp, step, WM.bind_apply, getVec_ok w v d hv hl, h0, if_false, setLen, setVec_apply, sinkHandle,
+      WM.pure_apply]
+
+theorem step_drainForget (cfg : Cfg) (v ty a b : Nat) (w : World) (s : Spec) (h : Rel bg v ty w s) :
+    ∃ s', Spec.Step s (.drainForget a b) s' ∧ Rel bg v ty (step cfg ((VOp.drainForget a b).toOp v ty) w).1 s' ∧
+      (step cfg ((VOp.drainForget a b).toOp v ty) w).2.notUb := by
+  by_cases hr : a ≤ b ∧ b ≤ s.items.length
+  · refine step_forget_at cfg v ty w s h (.drainForget a b) a trivial
+      (fun d hv hl => ⟨⟨d, hv, hl⟩, by intro p hp; cases hp⟩) ?_ (Spec.Step.drainForget s a b hr)
+    intro d hv hl hlen
+    refine ⟨by omega, [toString (b - a)], ?_⟩
+    have hir : intoRange d.len (.incl a) (.excl b) = .ok (a, b) := by
+      simp [intoRange, rangeStart, rangeEnd, hr.1, show b ≤ d.len by omega]
+    simp only [VOp.toOp, step, drain, WM.bind_apply, getVec_ok w v d hv hl, hir, WM.lift_ok, setLen, setVec_apply, eatLoop,
+      WM.pure_apply]
+  · obtain ⟨hinv, hf, ⟨d, hv, hl, hty, habs, hcp, hbk⟩, hn, hbg⟩ := h
+    obtain ⟨hinv', hnub⟩ := Hist.step_inv cfg ((VOp.drainForget a b).toOp v ty) w hinv trivial
+      ⟨⟨d, hv, hl⟩, by intro p hp; cases hp⟩
+    have hg := hinv.good v d hv
+    have hlen := abs_len hg.wf habs
+    have hex : step cfg ((VOp.drainForget a b).toOp v ty) w =
+        ({ w with fault := none }, .panic (if a ≤ b then "assertion failed: end <= len" else "assertion failed: start <= end")) := by
+      simp only [VOp.toOp, step, drain, WM.bind_apply, getVec_ok w v d hv hl, intoRange, rangeStart, rangeEnd]
+      by_cases hab : a ≤ b
+      · have : ¬ b ≤ d.len := fun hb => hr ⟨hab, by omega⟩
+        simp [hab, this, WM.lift]
+      · simp [hab, WM.lift]
+    refine ⟨s, Spec.Step.drainForgetOut s a b hr, ?_, hnub⟩
+    rw [hex] at hinv' ⊢
+    exact Rel.mk' (bg := bg) hinv' (by frame_tac hbg) rfl d hv hl hty habs hn hcp hbk
+
 /-- **one step refines the abstract vector** -/
 theorem step_refines (cfg : Cfg) (v ty : Nat) (w : World) (s : Spec) (h : Rel bg v ty w s) (op : VOp)
     (hop : op.Allowed s.fixed) :
@@ -1217,6 +1358,10 @@ theorem step_refines (cfg : Cfg) (v ty : Nat) (w : World) (s : Spec) (h : Rel bg
   | swap i j => exact step_swap cfg v ty i j w s h
   | assign i => exact step_assign cfg v ty i w s h
   | splice a b k cs => exact step_splice cfg v ty a b k cs w s h
+  | popForget => exact step_popForget cfg v ty w s h
+  | removeForget i => exact step_removeForget cfg v ty i w s h
+  | swapRemoveForget i => exact step_swapRemoveForget cfg v ty i w s h
+  | drainForget a b => exact step_drainForget cfg v ty a b w s h
 
 /-- no operation changes the kind of storage -/
 theorem Spec.Step.fixed_eq {s s' : Spec} {op : VOp} (h : Spec.Step s op s') : s'.fixed = s.fixed := by
@@ -1452,11 +1597,11 @@ theorem iter_refines (cfg : Cfg) (v ty : Nat) (cs : List End) (w : World) (s : S
 relation asks for: the refinement starts from wherever such a history has led -/
 theorem rel_of_reach (cfg : Cfg) (w : World) (hr : Hist.Reach cfg w) (hf : w.fault = none) (v : Nat) (d : VecSt)
     (hv : w.vecs[v]? = some d) (hl : d.live = true) :
-    ∃ items, Rel (fun u => w.vecs[u]?) v d.ty w ⟨items, w.created, d.cap, !VecSt.resizable d.bk⟩ := by
+    ∃ items, Rel (fun u => w.vecs[u]?) v d.ty w ⟨items, w.created, d.cap, !VecSt.resizable d.bk, d.cloneable⟩ := by
   have hinv := Hist.reach_inv_core cfg w hr
   have hg := hinv.good v d hv
   -- every visible cell is a value: read the identities off
-  refine ⟨d.abs.map Cell.idOr0, hinv, hf, ⟨d, hv, hl, rfl, ?_, rfl, by simp⟩, rfl, fun _ _ => rfl⟩
+  refine ⟨d.abs.map Cell.idOr0, hinv, hf, ⟨d, hv, hl, rfl, ?_, rfl, by simp, rfl⟩, rfl, fun _ _ => rfl⟩
   simp only [List.map_map]
   have : ∀ c ∈ d.abs, (Cell.val ∘ Cell.idOr0) c = c := by
     intro c hc
@@ -1470,7 +1615,7 @@ sequence on an abstract `Vec` that starts with the items and the capacity the ve
 theorem reachable_history_refines (cfg : Cfg) (w : World) (hr : Hist.Reach cfg w) (hf : w.fault = none) (v : Nat)
     (d : VecSt) (hv : w.vecs[v]? = some d) (hl : d.live = true) (ops : List VOp)
     (hall : ∀ op ∈ ops, op.Allowed (!VecSt.resizable d.bk)) :
-    ∃ items s', Spec.Steps ⟨items, w.created, d.cap, !VecSt.resizable d.bk⟩ ops s' ∧
+    ∃ items s', Spec.Steps ⟨items, w.created, d.cap, !VecSt.resizable d.bk, d.cloneable⟩ ops s' ∧
       Rel (fun u => w.vecs[u]?) v d.ty (runOps cfg v d.ty w ops) s' ∧
       ∀ u, u ≠ v → (runOps cfg v d.ty w ops).vecs[u]? = w.vecs[u]? := by
   obtain ⟨items, hrel⟩ := rel_of_reach cfg w hr hf v d hv hl
